@@ -82,7 +82,7 @@ def gen_env(rng, p, c, o):
             r = r - 0.5
         dur = rng.choice(durs)
         klass = rng.choice(pool) if rng.random() < 0.85 else rng.choice(KLASSES)
-        ra = rng.choice([None, None, None, 0, 2, 7, 10**7, -1, -320])
+        ra = rng.choice([None, None, None, None, 0, 2, 7, 10**7, -1, -320, "nan", "inf", "-inf"])
         last = i == n_ops - 1
         if r < o.get("p_fail_exc", 0.5):
             ops.append(["R", dur, klass, ra])
@@ -244,8 +244,17 @@ def goz(x):
     return "None" if x is None else f"(Some {gz(x)})"
 
 
+def goh(x):
+    """Retry-After hint: ticks or a non-finite float"""
+    if x is None:
+        return "None"
+    if isinstance(x, str):
+        return {"nan": "(Some HNaN)", "inf": "(Some HPInf)", "-inf": "(Some HNInf)"}.get(x, f"(Some (HFin {G.z(BAD)}))")
+    return f"(Some (HFin {gz(x)}))"
+
+
 def g_classif(klass, ra):
-    return G.rec(cl_k=klass, cl_ra=goz(ra))
+    return G.rec(cl_k=klass, cl_ra=goh(ra))
 
 
 def g_op(op):
@@ -323,7 +332,7 @@ def g_event(e):
         return G.con("ERClassify", gz(e[1]))
     if t == "ST":
         _, sid, legacy, att, klass, ra, prev, rem, cause = e
-        return G.con("EStrat", g_sid(sid), G.b(legacy), gz(att), klass, goz(ra), goz(prev), goz(rem), g_cause(cause))
+        return G.con("EStrat", g_sid(sid), G.b(legacy), gz(att), klass, goh(ra), goz(prev), goz(rem), g_cause(cause))
     if t == "B":
         return G.con("EBudget", G.b(e[1]))
     if t == "BR":      # Budget.remaining() called by the retry loop: the model only ever calls consume()
@@ -335,7 +344,7 @@ def g_event(e):
     if t == "L":
         tg, ok = g_tags(e[4])
         name = EVN.get(e[1], "N_OTHER") if ok else "N_OTHER"
-        return G.con("ELog", name, gz(e[2]), gz(e[3]), tg, goz(e[5]))
+        return G.con("ELog", name, gz(e[2]), gz(e[3]), tg, goh(e[5]))
     if t == "H":
         return G.con("EHandler", WHO[e[1]], gz(e[2]), e[3], gz(e[4]), HD[e[5]])
     if t == "BS":
